@@ -30,7 +30,11 @@ def digest_df(df):
         if str(dt) == "category":
             h.update(repr((str(c), [repr(x) for x in dt.categories], bool(dt.ordered))).encode())
     if len(df.columns) or len(df):
-        h.update(pd.util.hash_pandas_object(df, index=True).values.tobytes())
+        try:
+            h.update(pd.util.hash_pandas_object(df, index=True).values.tobytes())
+        except TypeError:               # cells holding lists / dicts (LIST, MAP columns)
+            h.update(repr(df.index.tolist()).encode())
+            h.update(repr(df.values.tolist()).encode())
     return ["df", int(len(df)), int(len(df.columns)), h.hexdigest()[:16]]
 
 
@@ -625,6 +629,9 @@ def build_frame(spec):
 
 def build_dataset(spec, root):
     """writes the dataset described by spec under root; returns the path to open"""
+    if spec["kind"] == "file":          # a foreign file of the repository's test-data (read-only use)
+        from harness import common as C
+        return os.path.join(C.REPO, "test-data", spec["name"])
     from fastparquet import write
     df = build_frame(spec)
     offs = list(spec["offsets"])
